@@ -6,6 +6,7 @@
    (2) all pairs of a mapping menu x numeric_sort: Merge_Alg = Merge_Decl, printed for replay.        *)
 EXTENDS AttrStore, TLC, Json
 CONSTANT Depth, Mode      \* Mode "ops" | "merge"
+CONSTANT Deviations       \* {} or {"Dev_SwitchLeaksIntoPrint"}
 KA == <<97>>  KB == <<98>>  KC == <<78, 97, 109, 101>>
 V1 == <<120>>  V2 == <<233, 20013>>  V3 == <<53>>  V4 == <<52, 46, 50>>  V5 == <<49, 48>>  V6 == <<32, 53>>
 \* the texts of this model that float() accepts, with ten times their value (' 5' parses as 5.0 and ties with '5')
@@ -15,7 +16,8 @@ Keys == {KA, KB, KC}
 
 VARIABLES store, sw, h
 Init == store = <<>> /\ sw = TRUE /\ h = <<>>
-Rec(op, args) == [op |-> op, view |-> ViewAll(store', sw'), under |-> store', sw |-> sw'] @@ args
+Rec(op, args) == [op |-> op, view |-> ViewAll(store', sw'), under |-> store', sw |-> sw', printed |-> Printed(store', sw', FALSE),
+                  printedLeak |-> Printed(store', sw', TRUE)] @@ args
 \* a Feature whose attributes arrive as a plain mapping / as stored JSON text that still holds scalars (first step only): loading wraps every scalar
 RawSeeds == { <<<<KB, [scalar |-> V1]>>, <<KA, [list |-> <<V1, V2>>]>>, <<KC, [scalar |-> <<>>]>>>>, <<<<KA, [scalar |-> V2]>>>> }
 Ops == \/ \E raw \in RawSeeds : h = <<>> /\ store' = Load(raw) /\ sw' = sw /\ h' = Append(h, Rec("load", [raw |-> raw]))
@@ -46,5 +48,8 @@ InvSeqs == \A i \in 1..Len(store) : store[i][2] \in Seq(Seq(Nat))
 InvSwitch == \A i \in 1..Len(store) : LET v == View(store, store[i][1], sw) IN
                 IF sw \/ Len(store[i][2]) # 1 THEN v = [list |-> store[i][2]] ELSE v = [scalar |-> store[i][2][1]]
 InvKeysOnce == NoDup(AttrKeys(store))
+\* the printed attribute column does not depend on the switch (with the leak switched on this must FAIL: the known finding is a defect)
+Leak == "Dev_SwitchLeaksIntoPrint" \in Deviations
+InvPrintIgnoresSwitch == Printed(store, sw, Leak) = Printed(store, TRUE, FALSE)
 InvMerge == Mode = "merge" => Merge_Alg(m1, m2, num) = Merge_Decl(m1, m2, num)
 =============================================================================
